@@ -21,6 +21,8 @@ REFPAT = {
     'complex-part': ["#4=(AB('n%V')AB2(1.5,#2));"],
     'forward': ["#4=AB2('n%V',1.5,#5);", "#5=TGT(%V5);"],
     'self-chain': ["#4=M12(%V,'q',#1);", "#5=M12(%V,'r',#1);"],
+    'select-aggregate': ["#4=KS(%V,(#1,#3),(#2,DREAL(1.5)));"],
+    'select-aggregate-fwd': ["#4=KS(%V,(#5),(COLOR(.RED.),#5));", "#5=TGT(%V5);"],
     'none': [],
 }
 IDPAT = {
@@ -30,12 +32,23 @@ IDPAT = {
     'two-k': lambda i: {1: 1, 2: 1999, 3: 2000, 4: 2001, 5: 3999}[i],
     'large': lambda i: 1000000 + i * 499,
     'reversed': lambda i: 60 - i * 10,
+    # legal but unusual: the largest id is not on the last instance (and the last one lies a whole thousand below it)
+    'high-first': lambda i: {1: 2003, 2: 2004, 3: 10, 4: 11, 5: 12}[i],
+    'high-middle': lambda i: {1: 7, 2: 5999, 3: 8, 4: 9, 5: 10}[i],
 }
+
+
+def schema():
+    """family I + an entity whose attributes are aggregates of SELECTs (entity members and a mixed select)"""
+    S, N, A = smodel.Simple, smodel.Named, smodel.Aggr
+    fam = smodel.family_I('fi')
+    fam.add(smodel.Entity('ks', [smodel.Attr('n', S('INTEGER')), smodel.Attr('sels', A('LIST', 0, None, N('selent'))), smodel.Attr('mix', A('SET', 0, None, N('selmix')))]))
+    return fam
 
 
 def make_file(schema, fileno, refpat, idpat):
     lines = BASE + REFPAT[refpat]
-    f = IDPAT[idpat]
+    f = IDPAT[idpat[fileno - 1] if isinstance(idpat, (list, tuple)) else idpat]
     out = []
     for l in lines:
         l = re.sub(r'%V(\d?)', lambda m: str(fileno * 100 + int(m.group(1) or 0)), l)
@@ -93,7 +106,7 @@ def shift(v, delta):
 
 
 def judge(case, res):
-    ctx = '%s/%s' % (case['refpats'][-1], case['idpat'])
+    ctx = '%s/%s' % (case['refpats'][-1], case['idpat'] if isinstance(case['idpat'], str) else '+'.join(case['idpat']))
     if 'crash' in res:
         return [('crash/%s/%s' % tuple(res['crash']), 'crash %s in %s' % tuple(res['crash']))]
     pops = [p21ref.parse_file(t.encode('latin1')) for t in case['files']]
@@ -160,6 +173,16 @@ def judge(case, res):
 
 def gen(tier):
     rps = list(REFPAT)
+    # the files of one history with DIFFERENT id patterns: the first file decides the offset, the later ones what is shifted
+    pats = list(IDPAT)
+    for pa in pats:
+        for pb in pats:
+            if pa == pb:
+                continue
+            for rb in (['plain', 'select-aggregate'] if tier == 'quick' else rps):
+                yield ['plain', rb], (pa, pb)
+            if tier != 'quick' or pa in ('high-first', 'high-middle', 'reversed'):
+                yield ['none', 'plain', 'aggregate'], (pa, pb, pa)
     for idpat in IDPAT:
         for ra in (['none', 'plain'] if tier == 'quick' else rps):
             for rb in rps:
@@ -174,7 +197,7 @@ def gen(tier):
 def replay(path):
     obj = json.load(open(path))
     case = obj['case']
-    fam = smodel.family_I('fi')
+    fam = schema()
     lib = build.schema_lib(fam.express(), 'plain')
     r = p21run.run_many(lib, [case], fn=append_case, procs=1)[0]
     for k, t in enumerate(case['files']):
@@ -197,7 +220,7 @@ def main():
                 '= one history on the real STEPfile; oracle = dict model (A unchanged, B = ids + one common offset > max earlier id, references shifted)'
                 % (sorted(REFPAT), sorted(IDPAT)))
     chk.assumptions = ['ids whose shifted value would exceed INT_MAX are not generated', 'p21ref correct']
-    fam = smodel.family_I('fi')
+    fam = schema()
     lib = build.schema_lib(fam.express(), 'plain')
     cases = []
     for rps_, idpat in gen(args.tier):
@@ -206,7 +229,7 @@ def main():
     results = p21run.run_many(lib, cases, fn=append_case, chunksize=4)
     for c, r in zip(cases, results):
         chk.count(states=1, transitions=len(c['files']))
-        chk.cls('%d-files/%s' % (len(c['files']), c['idpat']))
+        chk.cls('%d-files/%s' % (len(c['files']), c['idpat'] if isinstance(c['idpat'], str) else 'mixed:' + c['idpat'][0]))
         v = judge(c, r)
         if not v:
             chk.outcome('ok')
